@@ -7,7 +7,7 @@ CLAIM = dict(
     note="Trusted: Coq kernel, extraction, driver, hand model (validated by the correspondence), issubclass table of the generated classes, the harness's guarded hook fixing set-iteration order to registration order (OVLD_VERIF). Reading adopted: a Python binding TypeError raised by the generated entry point for a call shape no method accepts counts as the 'no applicable method' error. Tiebreaks come from the registration model (defs_register). The side condition that the level computation does not fail is itself proved for the static fragment (C02_static_total: no fuel exhaustion, no graphlib cycle).",
     technique="Coq proof (Kahn-layer monotonicity, sort/_pull lemmas, spec vs model) + differential correspondence on generated programs", design="6 C02")
 
-THEOREMS = ["C02_static_total", "C02_no_internal_error", "C02_winner_complete_unconditional", "C02_winner_maximal_unconditional", "C02_no_method_unconditional", "C02_leaf_dominates", "C02_leaf_sort_key", "C02_leaf_arity", "C02_leaf_group", "C02_no_method", "C02_winner_complete", "C02_winner_maximal", "C02_exact_on_chains", "C02_single_inheritance_exact", "C02_ties_registered", "C02_exact_registered", "C02_exact_refuted"]
+THEOREMS = ["C02_static_total", "C02_no_internal_error", "C02_winner_complete_unconditional", "C02_winner_maximal_unconditional", "C02_no_method_unconditional", "C02_leaf_dominates", "C02_leaf_sort_key", "C02_leaf_arity", "C02_leaf_group", "C02_leaf_edge", "C02_leaf_level", "C02_no_method", "C02_winner_complete", "C02_winner_maximal", "C02_exact_on_chains", "C02_single_inheritance_exact", "C02_ties_registered", "C02_exact_registered", "C02_exact_refuted"]
 ASSUMPTIONS = ["generated worlds satisfy the theorems' hypotheses (issubclass reflexive/antisymmetric): checked per world",
                "call shapes mixing keywords with omitted optional positionals are left to C03 (entry point)"]
 
